@@ -94,6 +94,22 @@ pub fn sweep_lengths(exp: Exp, dir: Dir) -> Vec<usize> {
     v
 }
 
+/// every multiple of 256 up to 0xFF00 with its two neighbours: buffer and chunk sizes are such numbers, and arithmetic on
+/// lengths tends to be wrong exactly there (only lengths not already in `sweep_lengths`)
+pub fn sweep_lengths_256(exp: Exp, dir: Dir) -> Vec<usize> {
+    let base = sweep_lengths(exp, dir);
+    let max_expressible = max_expressible_body(exp, dir).min(0xFFFF);
+    let mut v = Vec::new();
+    for k in 1..=255usize {
+        for l in [k * 256 - 1, k * 256, k * 256 + 1] {
+            if l <= max_expressible && !base.contains(&l) {
+                v.push(l);
+            }
+        }
+    }
+    v
+}
+
 fn warden(exp: Exp, dir: Dir, len: usize) -> AnyMsg {
     let data: Vec<u8> = (0..len).map(|i| (i * 31 % 251) as u8).collect();
     match (exp, dir) {
@@ -133,6 +149,9 @@ impl C02 {
         for e in Exp::ALL {
             for d in [Dir::Client, Dir::Server] {
                 for l in sweep_lengths(e, d) {
+                    sweep.push((e, d, l));
+                }
+                for l in sweep_lengths_256(e, d) {
                     sweep.push((e, d, l));
                 }
             }
@@ -262,7 +281,7 @@ impl Check for C02 {
         "exploration"
     }
     fn rule(&self) -> String {
-        "Each run is one simulated session: 1-12 world messages (values obtained by decoding model-peer frames; for the length sweep a WARDEN_DATA message of an exact body length followed by a second message) are written with the library's writers (sync/tokio/async-std, short writes, Pending, EINTR) onto one SimPipe stream and read back with the opcode-enum reader or the typed expect helper under a scheduled chunking. Compressed messages are included with large incompressible payloads (their writers are overridden). After a successful read a typed helper is also asked for the WRONG type: it must return an opcode error and still consume exactly the announced bytes. Every enumerated run and a quarter of the sampled sessions are repeated through the encrypting writers and decrypting readers (fixed key, real wow_srp halves; violations of that pass carry the prefix 'encrypted:'). Enumerated part: (a) for EVERY world message one session made of up to 6 shapes of that message, chosen greedily out of 48 model-peer candidates so that every branch / enumerator the model reaches occurs at least once; (b) every body length in 0..16, 0x7FF0..0x8010, 0xFFE8..0x10010 (and a few more) x 3 expansions x 2 directions, as far as the header form can express it. A run is non-trivial when at least one message was written and read and a chunk boundary, Pending or EINTR fell strictly inside a message; distinct = distinct event-log hashes (every transport call, every oracle verdict).".into()
+        "Each run is one simulated session: 1-12 world messages (values obtained by decoding model-peer frames; for the length sweep a WARDEN_DATA message of an exact body length followed by a second message) are written with the library's writers (sync/tokio/async-std, short writes, Pending, EINTR) onto one SimPipe stream and read back with the opcode-enum reader or the typed expect helper under a scheduled chunking. Compressed messages are included with large incompressible payloads (their writers are overridden). After a successful read a typed helper is also asked for the WRONG type: it must return an opcode error and still consume exactly the announced bytes. Every enumerated run and a quarter of the sampled sessions are repeated through the encrypting writers and decrypting readers (fixed key, real wow_srp halves; violations of that pass carry the prefix 'encrypted:'). Enumerated part: (a) for EVERY world message one session made of up to 6 shapes of that message, chosen greedily out of 48 model-peer candidates so that every branch / enumerator the model reaches occurs at least once; (b) every multiple of 256 up to 0xFF00 with its two neighbours and every body length in 0..16, 0x7FF0..0x8010, 0xFFE8..0x10010 (and a few more) x 3 expansions x 2 directions, as far as the header form can express it. A run is non-trivial when at least one message was written and read and a chunk boundary, Pending or EINTR fell strictly inside a message; distinct = distinct event-log hashes (every transport call, every oracle verdict).".into()
     }
     fn assumptions(&self) -> Vec<String> {
         vec![
